@@ -96,8 +96,8 @@ def backend_layer(tier, seed, ev, rep):
         expect_violation("MCBackend", bk_cfg("quick", "BufS", "ROrw", dev), BK_INV, tag="c02dev")
     # (buffer sizes, read-only map, collections, keys, values, wall-clock budget for the replay)
     if tier == "quick":
-        configs = [("BufM1", "ROmix", "C2", "KeysQ", "ValsQ", None), ("Buf0", "ROrw", "C2", "KeysQ", "ValsQ", None),
-                   ("BufS", "ROrw", "C2", "KeysQ", "ValsQ", None), ("BufL", "ROmix", "C2", "KeysQ", "ValsQ", None)]
+        configs = [("BufM1", "ROmix", "C2", "KeysQ", "ValsQ", None), ("Buf0", "ROrw", "C2", "KeysU", "ValsQ", None),
+                   ("BufS", "ROrw", "C2", "KeysQ", "ValsQ", None), ("BufL", "ROmix", "C2", "KeysU", "ValsQ", None)]
     else:
         configs = [("BufM1", "ROmix", "C2", "KeysT", "ValsT", 75), ("Buf0", "ROrw", "C2", "KeysT", "ValsT", 75),
                    ("BufS", "ROmix", "C2", "KeysT", "ValsT", 75), ("BufL", "ROmix", "C2", "KeysT", "ValsT", 75),
